@@ -79,6 +79,9 @@ Proofs/ReadPrint.vos Proofs/ReadPrint.vok Proofs/ReadPrint.required_vos: Proofs/
 Proofs/Positions.vo Proofs/Positions.glob Proofs/Positions.v.beautified Proofs/Positions.required_vo: Proofs/Positions.v Base/Base.vo Model/Reader.vo Proofs/ReaderTotal.vo
 Proofs/Positions.vio: Proofs/Positions.v Base/Base.vio Model/Reader.vio Proofs/ReaderTotal.vio
 Proofs/Positions.vos Proofs/Positions.vok Proofs/Positions.required_vos: Proofs/Positions.v Base/Base.vos Model/Reader.vos Proofs/ReaderTotal.vos
+Proofs/Lexer.vo Proofs/Lexer.glob Proofs/Lexer.v.beautified Proofs/Lexer.required_vo: Proofs/Lexer.v Base/Base.vo Model/Reader.vo Model/Printer.vo Model/Store.vo Model/Eval.vo Proofs/ReaderTotal.vo Proofs/Decimal.vo Proofs/ReadPrint.vo Proofs/Positions.vo
+Proofs/Lexer.vio: Proofs/Lexer.v Base/Base.vio Model/Reader.vio Model/Printer.vio Model/Store.vio Model/Eval.vio Proofs/ReaderTotal.vio Proofs/Decimal.vio Proofs/ReadPrint.vio Proofs/Positions.vio
+Proofs/Lexer.vos Proofs/Lexer.vok Proofs/Lexer.required_vos: Proofs/Lexer.v Base/Base.vos Model/Reader.vos Model/Printer.vos Model/Store.vos Model/Eval.vos Proofs/ReaderTotal.vos Proofs/Decimal.vos Proofs/ReadPrint.vos Proofs/Positions.vos
 Proofs/Heap.vo Proofs/Heap.glob Proofs/Heap.v.beautified Proofs/Heap.required_vo: Proofs/Heap.v Base/Base.vo Model/Reader.vo Model/Printer.vo Model/Api.vo
 Proofs/Heap.vio: Proofs/Heap.v Base/Base.vio Model/Reader.vio Model/Printer.vio Model/Api.vio
 Proofs/Heap.vos Proofs/Heap.vok Proofs/Heap.required_vos: Proofs/Heap.v Base/Base.vos Model/Reader.vos Model/Printer.vos Model/Api.vos
@@ -115,9 +118,9 @@ Props/C07.vos Props/C07.vok Props/C07.required_vos: Props/C07.v Base/Base.vos Mo
 Props/C08.vo Props/C08.glob Props/C08.v.beautified Props/C08.required_vo: Props/C08.v Base/Base.vo Model/Reader.vo Proofs/ReaderTotal.vo
 Props/C08.vio: Props/C08.v Base/Base.vio Model/Reader.vio Proofs/ReaderTotal.vio
 Props/C08.vos Props/C08.vok Props/C08.required_vos: Props/C08.v Base/Base.vos Model/Reader.vos Proofs/ReaderTotal.vos
-Props/C09.vo Props/C09.glob Props/C09.v.beautified Props/C09.required_vo: Props/C09.v Base/Base.vo Model/Reader.vo Model/Printer.vo Model/Store.vo Model/Eval.vo Model/Init.vo Proofs/Decimal.vo Proofs/ReadPrint.vo
-Props/C09.vio: Props/C09.v Base/Base.vio Model/Reader.vio Model/Printer.vio Model/Store.vio Model/Eval.vio Model/Init.vio Proofs/Decimal.vio Proofs/ReadPrint.vio
-Props/C09.vos Props/C09.vok Props/C09.required_vos: Props/C09.v Base/Base.vos Model/Reader.vos Model/Printer.vos Model/Store.vos Model/Eval.vos Model/Init.vos Proofs/Decimal.vos Proofs/ReadPrint.vos
+Props/C09.vo Props/C09.glob Props/C09.v.beautified Props/C09.required_vo: Props/C09.v Base/Base.vo Model/Reader.vo Model/Printer.vo Model/Store.vo Model/Eval.vo Model/Init.vo Proofs/Decimal.vo Proofs/ReadPrint.vo Proofs/Lexer.vo
+Props/C09.vio: Props/C09.v Base/Base.vio Model/Reader.vio Model/Printer.vio Model/Store.vio Model/Eval.vio Model/Init.vio Proofs/Decimal.vio Proofs/ReadPrint.vio Proofs/Lexer.vio
+Props/C09.vos Props/C09.vok Props/C09.required_vos: Props/C09.v Base/Base.vos Model/Reader.vos Model/Printer.vos Model/Store.vos Model/Eval.vos Model/Init.vos Proofs/Decimal.vos Proofs/ReadPrint.vos Proofs/Lexer.vos
 Props/C10.vo Props/C10.glob Props/C10.v.beautified Props/C10.required_vo: Props/C10.v Base/Base.vo Model/Reader.vo Model/Printer.vo Model/Store.vo Model/Eval.vo Model/Init.vo Proofs/EvalRel.vo
 Props/C10.vio: Props/C10.v Base/Base.vio Model/Reader.vio Model/Printer.vio Model/Store.vio Model/Eval.vio Model/Init.vio Proofs/EvalRel.vio
 Props/C10.vos Props/C10.vok Props/C10.required_vos: Props/C10.v Base/Base.vos Model/Reader.vos Model/Printer.vos Model/Store.vos Model/Eval.vos Model/Init.vos Proofs/EvalRel.vos
